@@ -113,29 +113,23 @@ End ItemsTotal.
 (* Transaction                                                         *)
 (* ------------------------------------------------------------------ *)
 
-(* the pinned decoder panics: a buffer cut right after the 93-byte header of a
-   transaction that declares one input *)
+(* the input that panicked the decoder before fix 34b1724 (a buffer cut right
+   after the 93-byte header of a transaction that declares one input) *)
 Definition tx_panic_witness : list N := [0; 0; 0; 1] ++ repeat 0 89.
 
-Lemma tx_total_refuted : exists bs site, decode_tx bs = Panic site.
-Proof. exists tx_panic_witness, 309. vm_compute. reflexivity. Qed.
-
-Lemma tx_panic_witness_known : known_c10_tx tx_panic_witness = true.
+Lemma tx_former_witness_rejected : decode_tx tx_panic_witness = Err.
 Proof. vm_compute. reflexivity. Qed.
 
-(* outside the class "93-byte header present, buffer shorter than it declares"
-   the decoder never panics *)
-Lemma tx_total_guarded bs s : known_c10_tx bs = false -> decode_tx bs <> Panic s.
+(* since the declared-length guard (fix 34b1724) the decoder never panics *)
+Lemma tx_total bs s : decode_tx bs <> Panic s.
 Proof.
-  intro K. unfold decode_tx, TRANSACTION_SIZE, SLIP_SIZE, HOP_SIZE.
+  unfold decode_tx, TRANSACTION_SIZE, SLIP_SIZE, HOP_SIZE.
   destruct (Nlen bs <? 93) eqn:EL; [discriminate|].
-  unfold known_c10_tx, tx_declared_size, TRANSACTION_SIZE, SLIP_SIZE, HOP_SIZE in K.
-  replace (93 <=? Nlen bs) with true in K by lia. cbn [andb] in K.
   sl_step. destruct (255 <? be_dec x) eqn:Ein; [discriminate|].
   sl_step. destruct (255 <? be_dec x0) eqn:Eout; [discriminate|].
   do 6 sl_step. destruct (negb (x6 <? 9)); [discriminate|].
-  apply sl_ok in E, E0, E1, E2. rewrite E, E0, E1, E2 in K.
   cbv zeta.
+  match goal with |- context [Nlen bs <? ?e] => destruct (Nlen bs <? e) eqn:Edecl; [discriminate|] end.
   assert (Hsz : 93 + (be_dec x + be_dec x0) * 59 + be_dec x1 + be_dec x2 * 130 <= Nlen bs) by lia.
   rewrite N.mul_add_distr_r in Hsz.
   assert (Hf : forall n c, 0 < c -> n * c <= Nlen bs -> (N.to_nat n <= length bs)%nat).
@@ -149,35 +143,25 @@ Proof.
   rewrite Em. cbn [bind].
   apply bind_ok_no_panic;
     [apply dec_items_no_panic; [apply hop_total|lia|apply (Hf _ 130); lia]|intro path].
-  discriminate.
+  match goal with |- (if ?c then _ else _) <> _ => destruct c; discriminate end.
 Qed.
 
-(* equivalently: every panic of the transaction decoder is in the known class *)
-Lemma tx_panic_is_known bs s : decode_tx bs = Panic s -> known_c10_tx bs = true.
+(* the payload of a decoded GoldenTicket-type transaction is 97 bytes, so the
+   assert of GoldenTicket::deserialize_from_net holds at its call sites (fix eeb4ec7) *)
+Lemma tx_golden_ticket_payload bs t :
+  decode_tx bs = Ok t -> t_type t = TT_GOLDEN_TICKET -> Nlen (t_data t) = 97.
 Proof.
-  intro H. destruct (known_c10_tx bs) eqn:K; [reflexivity|].
-  exfalso. eapply tx_total_guarded; eauto.
-Qed.
-
-(* the loop fuel (site 0) is never the reason *)
-Lemma tx_fuel_ok bs : decode_tx bs <> Panic 0.
-Proof.
-  unfold decode_tx, TRANSACTION_SIZE, SLIP_SIZE, HOP_SIZE.
-  destruct (Nlen bs <? 93) eqn:EL; [discriminate|].
-  sl_step. destruct (255 <? be_dec x) eqn:Ein; [discriminate|].
-  sl_step. destruct (255 <? be_dec x0) eqn:Eout; [discriminate|].
-  do 6 sl_step. destruct (negb (x6 <? 9)); [discriminate|].
-  cbv zeta.
-  assert (Hfuel : forall off c, 0 < off -> 0 < c -> Nlen bs < off + (N.of_nat (length bs) + 1) * c).
-  { intros off c Ho Hc. pose proof (mul_ge_l (N.of_nat (length bs) + 1) c Hc). unfold Nlen. lia. }
-  apply bind_ok_no_panic;
-    [apply dec_items_fuel_ok; [discriminate|lia|intro; apply slip_total|apply Hfuel; lia]|intro inputs].
-  apply bind_ok_no_panic;
-    [apply dec_items_fuel_ok; [discriminate|lia|intro; apply slip_total|apply Hfuel; lia]|intro outputs].
-  apply bind_ok_no_panic; [unfold sl; destruct (slice _ _ bs); discriminate|intro m].
-  apply bind_ok_no_panic;
-    [apply dec_items_fuel_ok; [discriminate|lia|intro; apply hop_total|apply Hfuel; lia]|intro path].
-  discriminate.
+  intros H Hty. unfold decode_tx in H.
+  destruct (Nlen bs <? TRANSACTION_SIZE); [discriminate|].
+  inv_bind H. destruct (255 <? be_dec x); [discriminate|].
+  inv_bind H. destruct (255 <? be_dec x0); [discriminate|].
+  inv_bind H. inv_bind H. inv_bind H. inv_bind H. inv_bind H. inv_bind H.
+  destruct (negb (x6 <? 9)); [discriminate|]. cbv zeta in H.
+  match type of H with context [Nlen bs <? ?e] => destruct (Nlen bs <? e); [discriminate|] end.
+  inv_bind H. inv_bind H. inv_bind H. inv_bind H.
+  match type of H with (if ?c then _ else _) = _ => destruct c eqn:Egt; [discriminate|] end.
+  inversion H; subst t; clear H. cbn [t_type t_data] in *. subst x6.
+  apply sl_ok, slice_Nlen in E9. rewrite N.eqb_refl in Egt. cbn [andb] in Egt. lia.
 Qed.
 
 (* ------------------------------------------------------------------ *)
@@ -222,14 +206,7 @@ Proof.
     unfold TRANSACTION_SIZE, SLIP_SIZE, HOP_SIZE in *.
     sl_step.
     apply bind_ok_no_panic.
-    + (* the transaction slice has exactly the length its header declares *)
-      apply tx_total_guarded. unfold known_c10_tx, tx_declared_size, TRANSACTION_SIZE, SLIP_SIZE, HOP_SIZE.
-      apply sl_ok in E, E0, E1, E2, E3.
-      pose proof (slice_Nlen _ _ _ _ E3) as L3.
-      rewrite (slice_slice _ _ _ _ 0 4 E3), (slice_slice _ _ _ _ 4 8 E3),
-              (slice_slice _ _ _ _ 8 12 E3), (slice_slice _ _ _ _ 12 16 E3) by lia.
-      replace (start + 0) with start by lia.
-      rewrite E, E0, E1, E2. lia.
+    + apply tx_total.
     + intro t. apply bind_ok_no_panic; [|discriminate]. apply IH.
       replace (N.of_nat (S fuel) + 1) with (1 + (N.of_nat fuel + 1)) in Hf by lia.
       rewrite N.mul_add_distr_r in Hf. lia.
@@ -310,12 +287,9 @@ Qed.
 (* ApiMessage, GoldenTicket, Wallet: refuted, guarded                  *)
 (* ------------------------------------------------------------------ *)
 
-Lemma api_total_refuted : exists bs site, decode_api bs = Panic site.
-Proof. exists [1; 2; 3], 1001. reflexivity. Qed.
-
-Lemma api_total_guarded bs s : known_c10_api bs = false -> decode_api bs <> Panic s.
+Lemma api_total bs s : decode_api bs <> Panic s.
 Proof.
-  unfold known_c10_api, decode_api. intro K.
+  unfold decode_api. destruct (Nlen bs <? 4) eqn:K; [discriminate|].
   sl_step. unfold sl_from. destruct (slice_from 4 bs) eqn:E4.
   - discriminate.
   - apply slice_from_none in E4. lia.
@@ -323,25 +297,30 @@ Qed.
 
 Lemma api_guarded_total bs s : decode_api_guarded bs <> Panic s.
 Proof.
-  unfold decode_api_guarded. destruct (Nlen bs <? 4) eqn:E; [discriminate|].
-  apply api_total_guarded. unfold known_c10_api. assumption.
+  unfold decode_api_guarded. destruct (Nlen bs <? 4) eqn:E; [discriminate|]. apply api_total.
 Qed.
 
-Lemma gt_total_refuted : exists bs site, decode_gt bs = Panic site.
-Proof. exists (repeat 0 96), 1301. reflexivity. Qed.
-
-Lemma gt_total_guarded bs s : known_c10_gt bs = false -> decode_gt bs <> Panic s.
+(* GoldenTicket::deserialize_from_net keeps its assert (an internal invariant) *)
+Lemma gt_precondition bs s : Nlen bs = 97 -> decode_gt bs <> Panic s.
 Proof.
-  unfold known_c10_gt, decode_gt. intro K. destruct (negb (Nlen bs =? 97)) eqn:E; [discriminate|].
+  unfold decode_gt. intro K. rewrite K. replace (97 =? 97) with true by reflexivity. cbn [negb].
   do 3 sl_step. discriminate.
 Qed.
 
-Lemma gt_panic_iff bs : (exists s, decode_gt bs = Panic s) <-> known_c10_gt bs = true.
+Lemma gt_panic_iff bs : (exists s, decode_gt bs = Panic s) <-> Nlen bs <> 97.
 Proof.
   split.
-  - intros (s & H). destruct (known_c10_gt bs) eqn:K; [reflexivity|].
-    exfalso. eapply gt_total_guarded; eauto.
-  - intro K. exists 1301. unfold decode_gt. unfold known_c10_gt in K. now rewrite K.
+  - intros (s & H) K. eapply gt_precondition; eauto.
+  - intro K. exists 1301. unfold decode_gt. replace (Nlen bs =? 97) with false by lia. reflexivity.
+Qed.
+
+(* what the callers do (mempool, block validation): no panic for any wire bytes *)
+Lemma tx_and_ticket_total bs s : decode_tx_and_ticket bs <> Panic s.
+Proof.
+  unfold decode_tx_and_ticket. apply bind_no_panic; [apply tx_total|]. intros t Ht.
+  destruct (t_type t =? TT_GOLDEN_TICKET) eqn:Ety; [|discriminate].
+  apply bind_ok_no_panic; [|discriminate].
+  apply gt_precondition. eapply tx_golden_ticket_payload; eauto. lia.
 Qed.
 
 Lemma wallet_total_refuted : exists bs site, decode_wallet bs = Panic site.
@@ -379,13 +358,13 @@ Proof.
   replace (i + 1 + N.of_nat k) with (i + N.of_nat (S k)) by lia. assumption.
 Qed.
 
-Lemma ghost_total_refuted : exists bs site, decode_ghost bs = Panic site.
-Proof. exists [1; 2; 3], 901. reflexivity. Qed.
+(* the unchecked inner function still has its precondition (no caller but deserialize_checked) *)
+Lemma ghost_inner_precondition_witness : exists site, decode_ghost [1; 2; 3] = Panic site.
+Proof. exists 901. reflexivity. Qed.
 
-(* a count of 2^32-1 in a 36-byte message *)
-Lemma ghost_total_refuted_count :
-  exists site, decode_ghost (repeat 0 32 ++ [255; 255; 255; 255]) = Panic site.
-Proof. exists 904. vm_compute. reflexivity. Qed.
+Definition ghost_declared_size (bs : list N) : N :=
+  match slice 32 36 bs with Some c => 36 + 82 * be_dec c | None => 36 end.
+Definition known_c10_ghost (bs : list N) : bool := Nlen bs <? ghost_declared_size bs.
 
 Lemma ghost_total_guarded bs s : known_c10_ghost bs = false -> decode_ghost bs <> Panic s.
 Proof.
@@ -420,37 +399,43 @@ Proof.
   discriminate.
 Qed.
 
+(* GhostChainSync::deserialize_checked (fix 8fc45ed): total *)
+Lemma ghost_checked_total bs s : decode_ghost_checked bs <> Panic s.
+Proof.
+  unfold decode_ghost_checked. destruct (Nlen bs <? 36) eqn:E36; [discriminate|].
+  destruct (sl_in_range 916 32 36 bs) as [c Ec]; [lia|lia|]. rewrite Ec, bind_Ok. cbv beta zeta.
+  destruct (Nlen bs <? 36 + 82 * be_dec c) eqn:Ed; [discriminate|].
+  apply ghost_total_guarded. unfold known_c10_ghost, ghost_declared_size.
+  apply sl_ok in Ec. rewrite Ec. lia.
+Qed.
+
+Lemma ghost_former_witnesses_rejected :
+  decode_ghost_checked [1; 2; 3] = Err
+  /\ decode_ghost_checked (repeat 0 32 ++ [255; 255; 255; 255]) = Err.
+Proof. split; vm_compute; reflexivity. Qed.
+
 (* ------------------------------------------------------------------ *)
 (* Message                                                             *)
 (* ------------------------------------------------------------------ *)
 
-Lemma message_total_refuted_tx : exists site, decode_message (4 :: tx_panic_witness) = Panic site.
-Proof. exists 309. vm_compute. reflexivity. Qed.
+Lemma message_former_witnesses_rejected :
+  decode_message (4 :: tx_panic_witness) = Err /\ decode_message [10; 1; 2; 3] = Err.
+Proof. split; vm_compute; reflexivity. Qed.
 
-Lemma message_total_refuted_ghost : exists site, decode_message [10; 1; 2; 3] = Panic site.
-Proof. exists 901. vm_compute. reflexivity. Qed.
-
-Lemma message_total_refuted : exists bs site, decode_message bs = Panic site.
-Proof. exists [10; 1; 2; 3], 901. vm_compute. reflexivity. Qed.
-
-Lemma message_body_total k p s :
-  (k = 4 -> known_c10_tx p = false) -> (k = 10 -> known_c10_ghost p = false) ->
-  decode_message_body k p <> Panic s.
+Lemma message_body_total k p s : decode_message_body k p <> Panic s.
 Proof.
-  intros K4 K10. unfold decode_message_body.
+  unfold decode_message_body.
   destruct (k =? 1); [apply bind_ok_no_panic; [apply hs_challenge_total|discriminate]|].
   destruct (k =? 2); [apply bind_ok_no_panic; [apply hs_response_total|discriminate]|].
   destruct (k =? 3); [apply bind_ok_no_panic; [apply block_total|discriminate]|].
-  destruct (k =? 4) eqn:E4;
-    [apply bind_ok_no_panic; [apply tx_total_guarded, K4; lia|discriminate]|].
+  destruct (k =? 4); [apply bind_ok_no_panic; [apply tx_total|discriminate]|].
   destruct (k =? 5); [apply bind_ok_no_panic; [apply bc_request_total|discriminate]|].
   destruct (k =? 6).
   { destruct (negb (Nlen p =? 40)) eqn:EL; [discriminate|]. do 2 sl_step. discriminate. }
   destruct (k =? 7); [discriminate|].
   destruct (k =? 8); [discriminate|].
   destruct (k =? 9); [apply bind_ok_no_panic; [apply services_total|discriminate]|].
-  destruct (k =? 10) eqn:E10;
-    [apply bind_ok_no_panic; [apply ghost_total_guarded, K10; lia|discriminate]|].
+  destruct (k =? 10); [apply bind_ok_no_panic; [apply ghost_checked_total|discriminate]|].
   destruct (k =? 11).
   { destruct (negb (Nlen p =? 72)) eqn:EL; [discriminate|]. do 3 sl_step. discriminate. }
   destruct (k =? 12); [apply bind_ok_no_panic; [apply api_guarded_total|discriminate]|].
@@ -463,10 +448,10 @@ Proof.
   pose proof (N.div_mod (Nlen p) 33 ltac:(lia)). lia.
 Qed.
 
-Lemma message_total_guarded bs s : known_c10_message bs = false -> decode_message bs <> Panic s.
+Lemma message_total bs s : decode_message bs <> Panic s.
 Proof.
-  intro K. destruct bs as [|k p]; [discriminate|].
-  rewrite decode_message_cons. apply message_body_total; intros ->; exact K.
+  destruct bs as [|k p]; [discriminate|].
+  rewrite decode_message_cons. apply message_body_total.
 Qed.
 
 (* ------------------------------------------------------------------ *)
@@ -682,4 +667,46 @@ Proof.
   match goal with H : sl 914 _ _ _ = Ok _ |- _ => apply sl_ok, slice_some in H; destruct H as (_ & L914 & _) end.
   match goal with H : sl 902 _ _ _ = Ok _ |- _ => apply sl_ok, slice_some in H; destruct H as (_ & L902 & _) end.
   unfold Nlen in *. repeat split; lia.
+Qed.
+
+Lemma ghost_checked_ok_inner bs g : decode_ghost_checked bs = Ok g -> decode_ghost bs = Ok g.
+Proof.
+  unfold decode_ghost_checked. destruct (Nlen bs <? 36); [discriminate|].
+  intro H. inv_bind H. cbv zeta in H.
+  match type of H with (if ?c then _ else _) = _ => destruct c; [discriminate|] end. exact H.
+Qed.
+
+(* golden tickets inside a decoded block: every GoldenTicket-type transaction
+   carries 97 bytes, so Block::validate / generate_consensus_values do not hit the assert *)
+Lemma dec_block_txs_forall (P : tx -> Prop) bs :
+  (forall tb t, decode_tx tb = Ok t -> P t) ->
+  forall fuel n start txs, dec_block_txs fuel n start bs = Ok txs -> Forall P txs.
+Proof.
+  intro HP. induction fuel as [|fuel IH]; intros n start txs H; rewrite dec_block_txs_unfold in H.
+  - destruct (n =? 0); [inversion H; constructor|].
+    destruct (Nlen bs <? start + 16); [discriminate|].
+    inv_bind H. inv_bind H. inv_bind H. inv_bind H. cbv zeta in H.
+    destruct (two32 <=? be_dec x + be_dec x0); [discriminate|].
+    match type of H with context [Nlen bs <? ?e] => destruct (Nlen bs <? e); [discriminate|] end.
+    inv_bind H. discriminate.
+  - destruct (n =? 0); [inversion H; constructor|].
+    destruct (Nlen bs <? start + 16); [discriminate|].
+    inv_bind H. inv_bind H. inv_bind H. inv_bind H. cbv zeta in H.
+    destruct (two32 <=? be_dec x + be_dec x0); [discriminate|].
+    match type of H with context [Nlen bs <? ?e] => destruct (Nlen bs <? e); [discriminate|] end.
+    inv_bind H. inv_bind H. inv_bind H. inversion H; subst txs. constructor; eauto.
+Qed.
+
+Lemma block_golden_tickets_ok bs b t s :
+  decode_block bs = Ok b -> In t (b_txs b) -> t_type t = TT_GOLDEN_TICKET ->
+  decode_gt (t_data t) <> Panic s.
+Proof.
+  intros H Hin Hty. unfold decode_block in H.
+  destruct (Nlen bs <? BLOCK_HEADER_SIZE); [discriminate|].
+  do 33 (apply bind_ok_inv in H; destruct H as (? & _ & H)).
+  inv_bind H. inversion H; subst b; clear H. cbn [b_txs] in Hin.
+  pose proof (dec_block_txs_forall
+    (fun t => t_type t = TT_GOLDEN_TICKET -> Nlen (t_data t) = 97) bs
+    (fun tb t H => tx_golden_ticket_payload tb t H) _ _ _ _ E) as HF.
+  rewrite Forall_forall in HF. apply gt_precondition. now apply HF.
 Qed.
